@@ -13,7 +13,7 @@ import z3
 
 from . import terms as tm
 from .core import PNum, PBool, SymRange, Unsupported, ctx, decide, zl
-from .terms import Ext, ext_of, same_ext, ONE
+from .terms import Ext, ext_of, same_ext, ONE, named_ext, fresh
 
 
 class Coord:
@@ -408,6 +408,7 @@ class SymDA:
                 return self._prefix(d, PNum(v.ext.z)) if decide(v.ext.z <= self._ext[d].z) else self._keyerr(d)
             # arbitrary labels: existence is decided symbolically, selection is a column-selection isometry
             ok = z3.Bool(f"labels[{v.cid}] subset of labels[{cid}]")
+            ctx().notes.setdefault("label_preds", []).append(("subset", v.cid, cid, ok))
             if not decide(ok):
                 raise KeyError(f"not all values found in index {d!r}")
             P = tm.sym(f"Pick[{v.cid}<{cid}]", self._ext[d], v.ext, ("real",))
@@ -781,6 +782,26 @@ class XRFacade:
         if d not in a._dims or d not in b._dims:
             raise ValueError(f"contracted dimension {d!r} missing from an operand")
         shared = [x for x in a._dims if x in b._dims and x != d]
+        ca, cb = a._cid.get(d), b._cid.get(d)
+        if ca is not None and cb is not None and not cid_equal(ca, cb) and same_ext(a._ext[d], b._ext[d]) is False \
+                or (ca is not None and cb is not None and not cid_equal(ca, cb)):
+            # xarray aligns the operands on their common labels (inner join) before contracting
+            eq = z3.Bool(f"labels[{ca}] == labels[{cb}]")
+            ctx().notes.setdefault("label_preds", []).append(("eq", ca, cb, eq))
+            if decide(eq):
+                if not same_ext(a._ext[d], b._ext[d]):
+                    raise Unsupported("equal labels with different extents")
+                b = b._new(b.term, cid={**b._cid, d: ca})
+            else:
+                common = named_ext(fresh("common"))
+                cc = ("common", ca, cb)
+                Pa = tm.sym(fresh("Join"), a._ext[d], common, ("real",))
+                Pb = tm.sym(fresh("Join"), b._ext[d], common, ("real",))
+                c_ = ctx()
+                c_.facts.append(common.z >= 0)
+                c_.events.append(("inner-join", {"dim": d, "a": ca, "b": cb}))
+                a = SymDA(a._side(d, Pa), a._dims, {**a._ext, d: common}, {**a._cid, d: cc}, a.cplx, a.lazy)
+                b = SymDA(b._side(d, Pb), b._dims, {**b._ext, d: common}, {**b._cid, d: cc}, b.cplx, b.lazy)
         a._align(b, d)
         if shared:
             if len(shared) == 1 and len(a._dims) == 2 and len(b._dims) == 2:
